@@ -9,6 +9,15 @@
 (*   sil  : non-decreasing positions 0..SilPos (length SilMinLen..SilLen) with every labelling into *)
 (*          k in SilKs clusters (names in order of first use) that each hold >= 2 distinct points  *)
 (*   pear : all matrices of PearRows x PearCols over 0..PearHi with non-constant columns           *)
+(*   reg (long, tag "reglong"): lattice vectors of the lengths in RegLongLens (above the cut-off   *)
+(*          below which selection/sorting routines fall back to insertion sort) built by formula:  *)
+(*          all absolute errors distinct / repeated magnitudes with both signs / mostly zero /     *)
+(*          ties around the median; the permutation is the reversal                                *)
+(*   rocu : scores that are neighbouring f32 values: the case carries integer ranks and a base,    *)
+(*          the harness maps rank r to 1/2 + r 2^-24 ("half"), r 2^-30 ("zero"), 1 - r 2^-24       *)
+(*          ("one", order reversed) -- all exactly representable, gaps >= 9e-10 (well above the    *)
+(*          1e-10 below which linfa merges scores); AUC is a rank statistic, so the oracle only    *)
+(*          uses the order and ties of the ranks                                                   *)
 (* `perm` is one permutation (rotation) the harness applies to all per-sample vectors together.    *)
 EXTENDS Naturals, Integers, Sequences, FiniteSets, TLC, Json
 
@@ -17,7 +26,9 @@ CONSTANTS Kinds,
           RocLen, RocDen,
           RegLen, RegNeg, RegHi,
           SilMinLen, SilLen, SilPos, SilKs,
-          PearRows, PearCols, PearHi
+          PearRows, PearCols, PearHi,
+          RegLongLens,             \* lengths of the long regression vectors (kind tag "reglong")
+          RocuLen, RocuRank        \* ulp-neighbour scores: ranks 0..RocuRank, length 2..RocuLen
 
 VARIABLE case
 
@@ -64,7 +75,32 @@ InitPear ==
   \E cs \in [1..PearCols -> {cv \in Vecs(PearRows, 0, PearHi) : NonConst(cv)}] :
     case = [kind |-> "pear", inp |-> [cols |-> cs, perm |-> Rot(PearRows)]]
 
+\* long regression vectors: b = truth, a = prediction = b + d for an error pattern d
+Rev(nn) == [q \in 1..nn |-> nn + 1 - q]
+LongPatterns(nn) ==
+  \* all absolute errors distinct (q * mul mod 53 is injective on 1..52) in several orders, truth 0..3,
+  \* over-, under- and alternating predictions
+  { [b |-> [q \in 1..nn |-> (q * 3) % 4], d |-> [q \in 1..nn |-> (q * mul) % 53]] : mul \in {13, 19, 29, 41} } \cup
+  { [b |-> [q \in 1..nn |-> (q * 3) % 4], d |-> [q \in 1..nn |-> -((q * mul) % 53)]] : mul \in {17, 31} } \cup
+  { [b |-> [q \in 1..nn |-> (q * 3) % 4], d |-> [q \in 1..nn |-> (IF q % 2 = 0 THEN 1 ELSE -1) * ((q * mul) % 53)]] : mul \in {23, 37} } \cup
+  { \* repeated magnitudes with both signs, prediction stays positive
+    [b |-> [q \in 1..nn |-> (q % 3) + 4], d |-> [q \in 1..nn |-> ((q * 5) % 7) - 3]],
+    \* mostly exact predictions, a few large errors
+    [b |-> [q \in 1..nn |-> (q * 5) % 6], d |-> [q \in 1..nn |-> IF q % 9 = 0 THEN q ELSE 0]],
+    \* two magnitudes only: the two middle order statistics differ for even nn
+    [b |-> [q \in 1..nn |-> ((q * 7) % 5) + 2], d |-> [q \in 1..nn |-> IF (q * 11) % nn < nn \div 2 THEN 1 ELSE -2]] }
+InitRegLong ==
+  \E nn \in RegLongLens : \E pt \in LongPatterns(nn) :
+    case = [kind |-> "reg", inp |-> [a |-> [q \in 1..nn |-> pt.b[q] + pt.d[q]], b |-> pt.b, perm |-> Rev(nn)]]
+
+InitRocu ==
+  \E nn \in 2..RocuLen : \E rv \in Vecs(nn, 0, RocuRank), tv \in Vecs(nn, 0, 1), bs \in {"half", "zero", "one"} :
+    /\ Range(tv) = {0, 1}
+    /\ case = [kind |-> "rocu", inp |-> [rank |-> rv, base |-> bs, truth |-> tv, perm |-> Rot(nn)]]
+
 Init ==
+  \/ "reglong" \in Kinds /\ InitRegLong
+  \/ "rocu" \in Kinds /\ InitRocu
   \/ "cm" \in Kinds /\ InitCm
   \/ "roc" \in Kinds /\ InitRoc
   \/ "reg" \in Kinds /\ InitReg
